@@ -572,6 +572,15 @@ func vfC16Attributes(e *vfEnv, r *vfResult) { //nolint:cyclop,maintidx
 
 		return vfC16Decode(m)
 	}
+	// destinations that are reused from one iteration to the next (a caller decoding message after message into the
+	// same variable): the decoded value must not depend on what the destination held before
+	var reP PriorityAttr
+	var reCing AttrControlling
+	var reCed AttrControlled
+	var reAC AttrControl
+	var reN NominationAttribute
+	var reBlob DtlsInStunAttribute
+	var reAck DtlsInStunAckAttribute
 	for i := 0; i < n; i++ {
 		r.eval(1)
 		v32 := rng.Uint32()
@@ -590,6 +599,9 @@ func vfC16Attributes(e *vfEnv, r *vfResult) { //nolint:cyclop,maintidx
 			if err := p.GetFrom(m); err != nil || uint32(p) != v32 {
 				r.violation("attr-priority-roundtrip", fmt.Sprintf("PRIORITY %d decoded as %d (%v)", v32, p, err), map[string]any{"value": v32})
 			}
+			if err := reP.GetFrom(m); err != nil || uint32(reP) != v32 {
+				r.violation("attr-priority-roundtrip:reused-destination", fmt.Sprintf("PRIORITY %d decoded into a reused variable as %d (%v)", v32, reP, err), map[string]any{"value": v32})
+			}
 		}
 		// ICE-CONTROLLING / ICE-CONTROLLED and the combined control attribute
 		if m, err := build(AttrControlling(v64)); err == nil {
@@ -600,6 +612,12 @@ func vfC16Attributes(e *vfEnv, r *vfResult) { //nolint:cyclop,maintidx
 			}
 			if err := ac.GetFrom(m); err != nil || ac.Role != Controlling || ac.Tiebreaker != v64 {
 				r.violation("attr-control-roundtrip", fmt.Sprintf("AttrControl from ICE-CONTROLLING %d: %+v (%v)", v64, ac, err), map[string]any{"value": v64})
+			}
+			if err := reCing.GetFrom(m); err != nil || uint64(reCing) != v64 {
+				r.violation("attr-controlling-roundtrip:reused-destination", fmt.Sprintf("ICE-CONTROLLING %d decoded into a reused variable as %d (%v)", v64, reCing, err), map[string]any{"value": v64})
+			}
+			if err := reAC.GetFrom(m); err != nil || reAC.Role != Controlling || reAC.Tiebreaker != v64 {
+				r.violation("attr-control-roundtrip:reused-destination", fmt.Sprintf("AttrControl from ICE-CONTROLLING %d into a reused variable: %+v (%v)", v64, reAC, err), map[string]any{"value": v64})
 			}
 			var other AttrControlled
 			if other.GetFrom(m) == nil {
@@ -614,6 +632,12 @@ func vfC16Attributes(e *vfEnv, r *vfResult) { //nolint:cyclop,maintidx
 			}
 			if err := ac.GetFrom(m); err != nil || ac.Role != Controlled || ac.Tiebreaker != v64 {
 				r.violation("attr-control-roundtrip", fmt.Sprintf("AttrControl from ICE-CONTROLLED %d: %+v (%v)", v64, ac, err), map[string]any{"value": v64})
+			}
+			if err := reCed.GetFrom(m); err != nil || uint64(reCed) != v64 {
+				r.violation("attr-controlled-roundtrip:reused-destination", fmt.Sprintf("ICE-CONTROLLED %d decoded into a reused variable as %d (%v)", v64, reCed, err), map[string]any{"value": v64})
+			}
+			if err := reAC.GetFrom(m); err != nil || reAC.Role != Controlled || reAC.Tiebreaker != v64 {
+				r.violation("attr-control-roundtrip:reused-destination", fmt.Sprintf("AttrControl from ICE-CONTROLLED %d into a reused variable: %+v (%v)", v64, reAC, err), map[string]any{"value": v64})
 			}
 		}
 		role := Controlling
@@ -661,6 +685,9 @@ func vfC16Attributes(e *vfEnv, r *vfResult) { //nolint:cyclop,maintidx
 			if err := nb.GetFrom(m); err != nil || (nv < 1<<24 && nb.Value != nv) {
 				r.violation("attr-nomination-roundtrip", fmt.Sprintf("Nomination(%d) decoded as %d (%v)", nv, nb.Value, err), nil)
 			}
+			if err := reN.GetFrom(m); err != nil || (nv < 1<<24 && reN.Value != nv) {
+				r.violation("attr-nomination-roundtrip:reused-destination", fmt.Sprintf("Nomination(%d) decoded into a reused variable as %d (%v)", nv, reN.Value, err), nil)
+			}
 		}
 		// DTLS-in-STUN and its ACK
 		blob := make([]byte, rng.IntN(64))
@@ -671,6 +698,9 @@ func vfC16Attributes(e *vfEnv, r *vfResult) { //nolint:cyclop,maintidx
 			var d DtlsInStunAttribute
 			if err := d.GetFrom(m); err != nil || !bytes.Equal(d, blob) {
 				r.violation("attr-dtls-roundtrip", fmt.Sprintf("DTLS-in-STUN %x decoded as %x (%v)", blob, []byte(d), err), nil)
+			}
+			if err := reBlob.GetFrom(m); err != nil || !bytes.Equal(reBlob, blob) {
+				r.violation("attr-dtls-roundtrip:reused-destination", fmt.Sprintf("DTLS-in-STUN %x decoded into a reused variable as %x (%v)", blob, []byte(reBlob), err), nil)
 			}
 		}
 		acks := make(DtlsInStunAckAttribute, rng.IntN(7))
@@ -687,6 +717,9 @@ func vfC16Attributes(e *vfEnv, r *vfResult) { //nolint:cyclop,maintidx
 			var d DtlsInStunAckAttribute
 			if err := d.GetFrom(m); err != nil || fmt.Sprint([]uint32(d)) != fmt.Sprint([]uint32(acks)) {
 				r.violation("attr-ack-roundtrip", fmt.Sprintf("DTLS ACK %v decoded as %v (%v)", acks, d, err), nil)
+			}
+			if err := reAck.GetFrom(m); err != nil || fmt.Sprint([]uint32(reAck)) != fmt.Sprint([]uint32(acks)) {
+				r.violation("attr-ack-roundtrip:reused-destination", fmt.Sprintf("DTLS ACK %v decoded into a variable that held an earlier value as %v (%v)", acks, reAck, err), nil)
 			}
 		}
 		r.distinct(fmt.Sprintf("attr/nom<2^24=%v/ack=%d/blob=%d/custom=%v", nv < 1<<24, len(acks), len(blob)/16, at != DefaultNominationAttribute))
